@@ -419,6 +419,22 @@ def judge_c17(scn, run) -> Tuple[List[Viol], Dict[str, int]]:
                     v.append(("C17/not-listening-while-running", "a broadcast to port %d found no socket of the running bridge" % a["port"]))
                 elif a["payload"][18:21].hex() not in delivered_ids:
                     v.append(("C17/missing-delivery", "a broadcast that arrived while running was never delivered"))
+    # a (re)started bridge delivers each datagram its sockets took once, not once per start it has ever had
+    for b in range(nb):
+        took: Dict[str, int] = {}
+        for a in run.arrival_order:
+            if a["owner"] == "app" and a.get("owner_id") == ("bridge", b) and len(a["payload"]) >= 21:
+                took[a["payload"][18:21].hex()] = took.get(a["payload"][18:21].hex(), 0) + 1
+        made: Dict[str, int] = {}
+        for cb in run.callbacks:
+            if cb.get("bridge", 0) == b:
+                made[cb["dev"].get("device_id")] = made.get(cb["dev"].get("device_id"), 0) + 1
+        for did, n in sorted(made.items(), key=lambda kv: str(kv[0])):
+            if n > took.get(did, 0):
+                v.append(("C17/more-callbacks-than-datagrams/%s" % ("after-restart" if stopped_before[b] else "first-run"),
+                          "bridge %d made %d callbacks for device %s from %d datagrams its sockets received" % (
+                              b, n, did, took.get(did, 0))))
+                break
     # quiet moments (after a sleep, long after the last lifecycle action): what a bridge says about itself must
     # agree with what it holds - in both directions (e.g. a socket error must not flip the flag)
     last_life = {}
